@@ -1,5 +1,6 @@
 import QcoVerif.Properties.C02
 import QcoVerif.Lemmas.BuilderSrc
+import QcoVerif.Generated.Limits
 /-
   C02 — tie to the SOURCE TEXT (DESIGN.md §2.3b).  Kept in a file of its own that nothing imports: a change of the translated
   source functions breaks THESE obligations only, not the build of the property files that import Properties/C02.lean.
@@ -49,5 +50,11 @@ theorem get_corresponding_node_matches_source (nodes : List Nat) (o : Nat) :
 
 end BuilderSourceTie
 
+
+/-- **pinned limit**: the code's layer-by-layer walk of a graph stops silently after `MAX_GRAPH_DEPTH` layers (a chain of more
+    operations than that on one channel is listed truncated); the model's listing is unbounded, so the listing theorems are about
+    graphs of fewer layers.  The bound they are stated for is the one the pinned code has: lowering it breaks this obligation
+    (and the harness then builds a chain deeper than the new bound). -/
+theorem graph_depth_bound_pinned : 5000 ≤ Qco.Gen.maxGraphDepth := by decide
 
 end Qco.C02
